@@ -447,6 +447,9 @@ def run(facts, rep, tier):
     rep.rule("C06-R7", "= C05-R3: which links are references (and so get a title, an extension, a path relative to the note) is decided in one place, model::is_ref_url, a negated disjunction "
              "of case-folded scheme prefixes: a note key taken for an external url is not refreshed and can be written as an autolink `<key>`, which is no link any more.")
     c05.rule_r3(facts, rep, "C06-R7")
+    rep.rule("C06-R7b", "External urls keep their destination whatever their scheme: model::is_ref_url tests for a scheme in general, not for a closed list of prefixes (a url with an "
+             "unlisted scheme would get the references extension appended).")
+    c05.rule_scheme_list(facts, rep, "C06-R7b")
     rep.rule("C06-R3c", "The title is all the words of the heading: Line::to_plain_text folds every inline through GraphInline::plain_text, a variant table in which every text-bearing variant "
              "(links included) contributes its payload's text.")
     from . import plaintext
